@@ -10,6 +10,7 @@
             on every correspondence case (Run/C08.v).
     Only theorem statements here; the proofs are in Proofs/C08_tables.v and Proofs/C08_logic.v. *)
 From Coq Require Import List String Ascii Bool.
+From PintV Require Gen.C08.
 From PintV Require Import Common.Bytes Gen.Tables Model.CheckSwitch Model.Routing08Tables Proofs.C08_tables Proofs.C08_logic Proofs.C08_online.
 Import ListNotations.
 Open Scope string_scope.
@@ -281,6 +282,31 @@ Proof.
 Qed.
 Print Assumptions C08_offline_flag_end_to_end.
 
+
+(** How actionSetup (cmd/pint/main.go) of the CURRENT source applies the three switches to the loaded configuration
+    (Gen/C08.v, regenerated from the Go AST on every run; any other statement touching the check switches is a translator
+    error): --disabled through SetDisabledChecks, then --enabled REPLACING cfg.Checks.Enabled when non-empty, then --offline
+    through DisableOnlineChecks — exactly the three steps, in the order, that [apply_flags] models. *)
+Theorem C08_flag_handling_of_the_source :
+  Gen.C08.flag_handling =
+  [("disabled", "SetDisabledChecks"); ("enabled", "replace-when-non-empty"); ("offline", "DisableOnlineChecks")].
+Proof. reflexivity. Qed.
+Print Assumptions C08_flag_handling_of_the_source.
+
+(** ... and what "replace" means in the model: a non-empty --enabled list becomes the enabled list whatever the file said,
+    an empty one leaves the file's list alone; the disabled list only grows. *)
+Theorem C08_cli_enabled_replaces_file_list : forall strict_match fd fe offline c,
+  c_enabled (apply_flags strict_match check_names online_checks fd fe offline c) =
+    match fe with [] => c_enabled c | _ => fe end /\
+  (forall x, In x (c_disabled c) -> In x (c_disabled (apply_flags strict_match check_names online_checks fd fe offline c))).
+Proof.
+  intros sm fd fe offline c. split; [reflexivity|].
+  intros x Hx. unfold apply_flags. cbn [c_disabled].
+  assert (H1 : In x (set_disabled_checks sm check_names fd (c_disabled c))) by (unfold set_disabled_checks; apply in_or_app; left; exact Hx).
+  destruct offline; [|exact H1].
+  apply (proj2 (disable_online_In online_checks _ x)). left. exact H1.
+Qed.
+Print Assumptions C08_cli_enabled_replaces_file_list.
 
 (** A check only ever runs on an entry its rule block matches and whose change state it declares in Meta().States. *)
 Theorem C08_checks_run_in_declared_states : forall c e prs p,
